@@ -1722,11 +1722,13 @@ func ExecSelect(query *Query, current []any) ([]any, error) {
 		switch current := current.(type) {
 		case []any:
 			{
-				rs, err := ExecSelect(query, current)
-				if err != nil {
-					return nil, err
+				// an inner array is the finished result of the query run on a nested array
+				// (exec evaluates nested arrays first); projecting it again would evaluate the
+				// select list on rows that no longer have the source columns
+				if current == nil {
+					current = make([]any, 0)
 				}
-				copy = append(copy, rs)
+				copy = append(copy, current)
 			}
 		case Map:
 			{
